@@ -728,7 +728,9 @@ def rule_hashes(ctx, repo, it):
                 good_lo = {canon_arith('64 * %s' % b_), canon_arith('%s << 6' % b_)}
                 good_up = {canon_arith('64 * (%s + 1)' % b_), canon_arith('64 * %s + 64' % b_), canon_arith('(%s + 1) << 6' % b_)}
                 rng_ok = canon_arith(lp_.iter) in {canon_arith('range(len(%s) >> 6)' % buf_), canon_arith('range(len(%s) // 64)' % buf_)}
-                if lo_ in good_lo and up_ in good_up and rng_ok:
+                stride_ok = canon_arith(lp_.iter) in {canon_arith('range(0, len(%s) - 63, 64)' % buf_), canon_arith('range(0, len(%s) - 64 + 1, 64)' % buf_)} \
+                    and lo_ == canon_arith(b_) and up_ == canon_arith('%s + 64' % b_)
+                if (lo_ in good_lo and up_ in good_up and rng_ok) or stride_ok:
                     r.ok(keyb, common.site_of(rf, c_), 'blocks %s[64*b:64*(b+1)]' % buf_)
                 elif rng_ok and re.match(r'^[\d\s*+()<b]+$', norm(blk_.slice.lower).replace(b_, 'b')) and re.match(r'^[\d\s*+()<b]+$', norm(blk_.slice.upper).replace(b_, 'b')):
                     r.violated(keyb, common.site_of(rf, c_), 'RIPEMD-160 compresses `%s`: the 64-byte blocks are %s[64*b:64*(b+1)] (a block that starts early, ends early or overlaps its neighbour changes every digest '
